@@ -61,6 +61,8 @@ template <class View> static void obs_head_bytes(const std::string &p, View v) {
   { auto m = v.MinSizeInBytes(); if (m.Ok()) out(p + ".min_size", num(m.Read())); else out(p + ".min_size", "notok"); }
 }
 template <class View, class I> static std::string try_write(View v, I x) { std::string r = b(v.CouldWriteValue(x)); r += b(v.TryToWrite(x)); return r; }
+static float bits_to_float(uint32_t r) { float f; memcpy(&f, &r, 4); return f; }
+static double bits_to_double(uint64_t r) { double f; memcpy(&f, &r, 8); return f; }
 static std::vector<long long> parse_params(const std::string &s) { std::vector<long long> r; if (s == "-") return r; std::istringstream in(s); std::string t; while (getline(in, t, ',')) r.push_back(strtoll(t.c_str(), nullptr, 10)); return r; }
 static std::string unescape(std::string t) { std::string r; for (size_t i = 0; i < t.size(); ++i) { if (t[i] == '\\' && i + 1 < t.size()) { ++i; if (t[i] == 'n') r += '\n'; else if (t[i] == 's') r += ' '; else r += t[i]; } else r += t[i]; } return r; }
 static std::string escape(const std::string &t) { std::string r; for (char c : t) { if (c == '\n') r += "\\n"; else if (c == '\\') r += "\\\\"; else r += c; } return r; }
@@ -196,6 +198,7 @@ class DriverGen:
             t = f.type
             if isinstance(t, D.Scalar):
                 if t.kind == "Float":
+                    yield path, acc, f"float{t.bits}", None
                     continue
                 yield path, acc, ("bool" if t.kind == "Flag" else "enum" if t.kind == "Enum" else "int"), t.enum
             elif isinstance(t, D.StructRef) and depth < 2:
@@ -204,6 +207,7 @@ class DriverGen:
                 for i in range(3):
                     if isinstance(t.elem, D.Scalar):
                         if t.elem.kind == "Float":
+                            yield f"{path}[{i}]", f"ELEM({acc}, {i})", f"float{t.elem_bits}", None
                             continue
                         k = "bool" if t.elem.kind == "Flag" else "enum" if t.elem.kind == "Enum" else "int"
                         yield f"{path}[{i}]", f"ELEM({acc}, {i})", k, t.elem.enum
@@ -232,6 +236,10 @@ class DriverGen:
                       body = f"(neg ? try_write(X, static_cast<int64_t>(0 - mag)) : try_write(X, mag))"
                   elif kind == "bool":
                       body = "try_write(X, mag != 0)"
+                  elif kind == "float32":
+                      body = "try_write(X, bits_to_float(static_cast<uint32_t>(mag)))"
+                  elif kind == "float64":
+                      body = "try_write(X, bits_to_double(mag))"
                   else:
                       body = f"try_write(X, static_cast<{cpp_enum(enum)}>(neg ? static_cast<int64_t>(0 - mag) : static_cast<int64_t>(mag)))"
                   if acc.startswith("ELEM("):
